@@ -14,7 +14,16 @@ import (
 	dbm "github.com/tendermint/tm-db"
 )
 
-var zones = []*time.Location{time.FixedZone("UTC-11", -11*3600), time.UTC, time.FixedZone("UTC+13", 13*3600)}
+var zones = func() []*time.Location {
+	l := []*time.Location{time.FixedZone("UTC-11", -11*3600), time.UTC, time.FixedZone("UTC+13", 13*3600)}
+	// zones with daylight-saving time (if the host has a tz database)
+	for _, n := range []string{"Europe/Berlin", "America/New_York", "Australia/Sydney"} {
+		if z, err := time.LoadLocation(n); err == nil {
+			l = append(l, z)
+		}
+	}
+	return l
+}()
 
 // mapOrderProbe iterates a small map next to each re-execution; the number of distinct
 // orders it produced is evidence that the runtime really varied map iteration.
@@ -71,16 +80,23 @@ func TestVerifC01Chain(t *testing.T) {
 			o.NIdent, o.NAccounts, o.ValidationInterval, o.ZeroStakes, o.AllValidated = 560, 3, 0, false, true
 			o.FirstCeremonyIn = 25 * time.Minute
 		}
+		if sc%2 == 1 && !large {
+			// start shortly before a clock change of the DST zones; small networks have epochs of a few days
+			o.StartTime = []time.Time{time.Date(2024, 3, 28, 9, 0, 0, 0, time.UTC), time.Date(2024, 10, 24, 9, 0, 0, 0, time.UTC),
+				time.Date(2024, 3, 7, 9, 0, 0, 0, time.UTC), time.Date(2024, 11, 1, 9, 0, 0, 0, time.UTC), time.Date(2024, 4, 4, 9, 0, 0, 0, time.UTC)}[(sc/2+verifutil.Shard())%5]
+			o.ValidationInterval = 0
+			o.FirstCeremonyIn = 30 * time.Minute
+		}
 		w := NewWorld(o)
 		for i, r := range w.Replicas {
-			r.Zone = zones[i%len(zones)]
+			r.Zone = zones[(i+sc+verifutil.Shard())%len(zones)]
 		}
 		// history diversity: a replica that is restarted, one that takes detours (rollback +
 		// re-apply), both must keep accepting the canonical blocks
 		restarter := w.NewReplica(w.God, dbm.NewMemDB())
-		restarter.Name, restarter.Observer, restarter.Zone = "restarter", true, zones[2]
+		restarter.Name, restarter.Observer, restarter.Zone = "restarter", true, zones[(sc+3)%len(zones)]
 		detour := w.NewReplica(w.God, dbm.NewMemDB())
-		detour.Name, detour.Observer, detour.Zone = "detour", true, zones[0]
+		detour.Name, detour.Observer, detour.Zone = "detour", true, zones[(sc+4)%len(zones)]
 		if !startScenario(w, rep, true) {
 			w.Cleanup()
 			continue
@@ -184,7 +200,7 @@ func TestVerifC01Chain(t *testing.T) {
 				rep.Distinct(b.Hash().Hex())
 			}
 			if sc == 0 && i < 2 {
-				rep.Sample(map[string]interface{}{"block": DescribeBlock(b), "replica_zones": []string{"UTC-11", "UTC", "UTC+13"}, "revalidations_per_replica": K})
+				rep.Sample(map[string]interface{}{"block": DescribeBlock(b), "replica_zones": fmt.Sprint(zones), "revalidations_per_replica": K})
 			}
 			gb := w.View().AppState.State.VerifGlobalBytes()
 			fmt.Fprintf(&chainLog, "%d %x %x %x %x\n", b.Height(), b.Hash().Bytes()[:8], b.Root().Bytes()[:8], b.IdentityRoot().Bytes()[:8], gb)
@@ -212,6 +228,37 @@ func TestVerifC01TimeZone(t *testing.T) {
 	sizes := []int{0, 1, 5, 17, 100, 289, 290, 300, 343, 1000, 3000, 5000, 5832, 9000, 15625, 20000}
 	base := time.Date(2023, 7, 1, 0, 0, 0, 0, time.UTC).Unix()
 	n := 0
+	rep.Count("dst_zones_available", len(zones)-3)
+	// (a) every day of two years at the usual ceremony hours: epochs that span a clock change
+	for day := 0; day < 731; day++ {
+		for _, hm := range [][2]int{{13, 30}, {15, 0}, {1, 30}} {
+			ts := base + int64(day*86400+hm[0]*3600+hm[1]*60)
+			for _, size := range []int{1, 17, 100, 300, 1000, 9000} {
+				for _, up12 := range []bool{true, false} {
+					cfg := &config.ValidationConfig{}
+					var ref int64
+					for zi, z := range zones {
+						time.Local = z
+						got := cfg.GetNextValidationTime(time.Unix(ts, 0), size, up12).Unix()
+						rep.Eval(1)
+						n++
+						if zi == 0 {
+							ref = got
+						} else if got != ref {
+							rep.Violation(fmt.Sprintf("next-validation-time-depends-on-time-zone:upgrade12=%v", up12),
+								fmt.Sprintf("GetNextValidationTime(unix %d = %s, networkSize %d, upgrade12=%v) = %d under %s but %d under %s",
+									ts, time.Unix(ts, 0).UTC().Format("2006-01-02 Mon 15:04"), size, up12, ref, zones[0], got, z),
+								map[string]interface{}{"unix": ts, "size": size, "upgrade12": up12})
+						}
+					}
+					if day%30 == 0 {
+						rep.Distinct("dst", ts, size, up12)
+					}
+				}
+			}
+		}
+	}
+	// (b) two weeks, every half hour, many sizes
 	for day := 0; day < 14; day++ {
 		for hour := 0; hour < 24; hour += 1 {
 			for _, min := range []int{0, 30} {
